@@ -42,7 +42,7 @@ func init() {
 		},
 		Run: run,
 		Floors: func(t string) map[string]int64 {
-			return map[string]int64{"spelling.esri": 5000, "conic.one_standard_parallel": 100, "spelling.ogc": 1000, "spelling.projection_name_in_another_case": 300, "section_order.unit_before_parameters": 1000, "unit.foot": 1000, "unit.us_foot": 1000, "towgs84.3": 1000, "towgs84.7": 1000, "towgs84.none": 1000, "towgs84.none_from_wgs84": 300,
+			return map[string]int64{"wkt.nested_geogcs_with_another_angular_unit": 300, "spelling.esri": 5000, "conic.one_standard_parallel": 100, "spelling.ogc": 1000, "spelling.projection_name_in_another_case": 300, "section_order.unit_before_parameters": 1000, "unit.foot": 1000, "unit.us_foot": 1000, "towgs84.3": 1000, "towgs84.7": 1000, "towgs84.none": 1000, "towgs84.none_from_wgs84": 300,
 				"proj.merc": 300, "proj.lcc": 300, "proj.aea": 300, "proj.eqdc": 300, "proj.tmerc": 300, "proj.longlat": 300, "registry.names": 100, "registry.equal_pairs": 500, "registry.unequal_pairs": 300, "registry.prj_files": 50, "twin.negated": 2000, "names.short_empty_or_unusual": 1000, "wkt.authority_on_nested_objects": 1000, "unit.other_named_factor": 1000, "layout.blank_after_commas": 1000, "twin.nudged": 1000}
 		},
 	})
